@@ -33,25 +33,32 @@ def run_json(exe, args, cases, timeout=600):
         return None, "unparsable output"
 
 
-def run_json_robust(exe, args, cases, timeout=600):
+def run_json_robust(exe, args, cases, timeout=600, budget=None):
     """Runs a batch.  The observers stop at the first case that exceeds their per-case watchdog (they report
     {"timeout": ms} for it and return fewer results than cases): the rest is resumed in a new process.  If the
     process dies (stack overflow / abort / out of memory / wall-clock limit) the batch is bisected to isolate the
-    offending case(s), which are reported as {"crash": reason}."""
+    offending case(s), which are reported as {"crash": reason}.  `budget` = {"left": n}: once n cases have timed out
+    or crashed the remaining cases are not run any more ({"skipped": true}): enough evidence, bounded wall time."""
     if not cases:
         return []
+    if budget is not None and budget["left"] <= 0:
+        return [{"skipped": True} for _ in cases]
     try:
         out, err = run_json(exe, args, cases, timeout)
     except subprocess.TimeoutExpired:
         out, err = None, "timeout"
     if out is not None:
         if len(out) < len(cases):
-            return out + run_json_robust(exe, args, cases[len(out):], timeout)
+            if budget is not None:
+                budget["left"] -= 1
+            return out + run_json_robust(exe, args, cases[len(out):], timeout, budget)
         return out
     if len(cases) == 1:
+        if budget is not None:
+            budget["left"] -= 1
         return [{"crash": err or "process died"}]
     mid = len(cases) // 2
-    return run_json_robust(exe, args, cases[:mid], timeout) + run_json_robust(exe, args, cases[mid:], timeout)
+    return run_json_robust(exe, args, cases[:mid], timeout, budget) + run_json_robust(exe, args, cases[mid:], timeout, budget)
 
 
 def model_lines(exe, cmd, texts, timeout=900, shards=None):
